@@ -70,6 +70,10 @@ type GenPool struct {
 	Schema       string
 	FaultySchema []string
 	Variants     []string // loadable siblings: same names, other relations/members/fields
+	// DirCut > 0: Schema and every variant were rendered with the directive
+	// definitions first; they end at these offsets (Schema, then the variants,
+	// then the faulty variants)
+	DirCuts      []int
 	FaultyCuts   [][]int  // per faulty variant: offsets at which other faulty definitions start (may be empty)
 	Docs         []string
 }
@@ -80,7 +84,17 @@ type GenPool struct {
 func GenPoolFor(r *Rng, nFaulty, nVariants, nDocs, faultyDocsIn10 int) *GenPool {
 	seed := r.U64()
 	s := GenSchema(NewRng(seed))
-	p := &GenPool{Schema: s.Render(NewRng(seed + 1))}
+	dirsFirst := len(s.Dirs) > 0 && r.Chance(1, 4)
+	p := &GenPool{}
+	render := func(g *GSchema, rr *Rng) string {
+		if dirsFirst {
+			t, cut := g.RenderDirsFirst(rr)
+			p.DirCuts = append(p.DirCuts, cut)
+			return t
+		}
+		return g.Render(rr)
+	}
+	p.Schema = render(s, NewRng(seed+1))
 	bump(&probes.genSchemas)
 	for _, t := range s.Types {
 		if t.Lonely {
@@ -95,16 +109,21 @@ func GenPoolFor(r *Rng, nFaulty, nVariants, nDocs, faultyDocsIn10 int) *GenPool 
 		if r.Chance(1, 2) {
 			order = r.U64() // same definitions, other textual order
 		}
-		ft, cuts := f.RenderMarked(NewRng(order), r.Chance(1, 2))
-		p.FaultySchema = append(p.FaultySchema, ft)
-		p.FaultyCuts = append(p.FaultyCuts, cuts)
+		if dirsFirst {
+			p.FaultySchema = append(p.FaultySchema, render(f, NewRng(order)))
+			p.FaultyCuts = append(p.FaultyCuts, nil)
+		} else {
+			ft, cuts := f.RenderMarked(NewRng(order), r.Chance(1, 2))
+			p.FaultySchema = append(p.FaultySchema, ft)
+			p.FaultyCuts = append(p.FaultyCuts, cuts)
+		}
 		bump(&probes.genFaultySch)
 		noteFaults(prefixAll("schema:", f.Faults))
 	}
 	for i := 0; i < nVariants; i++ {
 		v := GenSchema(NewRng(seed))
 		MutateSchemaValid(r, v, r.Range(1, 4))
-		p.Variants = append(p.Variants, v.Render(NewRng(seed+1)))
+		p.Variants = append(p.Variants, render(v, NewRng(seed+1)))
 		bump(&probes.genVariants)
 	}
 	if r.Chance(1, 15) {
